@@ -171,12 +171,12 @@ func (g *luaGen) block(n int) string {
 	return strings.Join(xs, "\n")
 }
 
-var annTypes = []string{"number", "string", "boolean", "table", "any", "Cls", "A", "B", "C", "Alias1", "Alias2", "E1", "fun(a:number):string", "table<string, A>", "A[]", "A|B|nil", "(A|B)[]", "fun()", "table<Alias1, Alias2[]>"}
+var annTypes = []string{"Handler", "number", "string", "boolean", "table", "any", "Cls", "A", "B", "C", "Alias1", "Alias2", "E1", "fun(a:number):string", "table<string, A>", "A[]", "A|B|nil", "(A|B)[]", "fun()", "table<Alias1, Alias2[]>"}
 
 func (g *luaGen) annType() string { return annTypes[g.r.Intn(len(annTypes))] }
 
 func (g *luaGen) annotation() string {
-	switch g.r.Intn(16) {
+	switch g.r.Intn(19) {
 	case 0:
 		return "---@class " + g.cls() + " : " + g.cls() + "\n---@field " + g.name() + " " + g.annType() + "\nlocal " + g.name() + " = {}"
 	case 1:
@@ -207,6 +207,14 @@ func (g *luaGen) annotation() string {
 		return "---@" + []string{"class", "type", "alias", "param", "return", "field", "generic", "overload", "enum", "vararg"}[g.r.Intn(10)] + " " + []string{"", ":", "|", "<", "[]", "fun(", "table<", ",", "@", "(", ")"}[g.r.Intn(11)]
 	case 14:
 		return "---@class " + g.cls() + "\n" + g.cls() + " = " + g.cls()
+	case 15:
+		// function-typed alias (often defined in one file and used in another: names are shared)
+		return "---@alias Handler fun(a:number, b:" + g.annType() + "):" + g.annType() + "\n---@alias Alias2 Handler"
+	case 16:
+		return "---@param cb Handler\n---@param other Alias2\n---@return Handler\nfunction " + g.name() + "(cb, other) return cb(1, 2) end\n---@type Handler\nlocal hh = nil\nhh(1, 2)\nprint(hh(3).x)"
+	case 17:
+		// table constructors with keys (definition / hover on a key of a constructor)
+		return g.name() + " = { " + g.name() + " = " + g.atom() + ", " + g.name() + " = { " + g.name() + " = 1 } }\nlocal lt = { kk = " + g.expr() + ", " + g.name() + " = nil }\nprint(lt.kk)"
 	default:
 		return "---@type table<" + g.annType() + ", " + g.annType() + ">[]\nlocal " + g.name() + " = {}\nprint(" + g.name() + "[1]." + g.name() + ")"
 	}
